@@ -12,6 +12,9 @@ from pyvc.interp import Builtin, Frame
 from pyvc.harness import repo
 
 
+_SHARED_DEFAULTS = {}
+
+
 def peewee_defaults(interp, cls):
     """A-7: a peewee Model instance is a record of its declared fields; XField(default=v) -> v, else None."""
     out = {}
@@ -23,9 +26,12 @@ def peewee_defaults(interp, cls):
                 val = None
                 for kw in m.value.keywords:
                     if kw.arg == 'default':
-                        val = interp.eval(kw.value, Frame(cls.mod))
-                        if isinstance(val, dict):
-                            val = dict(val)
+                        # peewee keeps a non-callable default as ONE object and hands it to every instance (JSONField(default={})
+                        # is the same dict for all orders): aliasing between records is part of the model
+                        key = (cls.qual, name)
+                        if key not in _SHARED_DEFAULTS:
+                            _SHARED_DEFAULTS[key] = interp.eval(kw.value, Frame(cls.mod))
+                        val = _SHARED_DEFAULTS[key]
                 out[name] = val
     return out
 
